@@ -195,6 +195,7 @@ struct RunSpec
     long budget;
     unsigned seed;
     double res;
+    std::string query{"single"};  // single | multistart | goalstates | region
 };
 
 static json runOne(const std::vector<Entry> &reg, const json &cs, const RunSpec &rs)
@@ -204,9 +205,8 @@ static json runOne(const std::vector<Entry> &reg, const json &cs, const RunSpec 
     Problem pr(w, rs.space, rs.res);
     ompl::RNG::setSeed(rs.seed);
     vt::Rng jit(rs.seed);
-    auto off = [&]() { return (jit.unit() - 0.5) * 0.6; };
-    double sdx = off(), sdy = off(), gdx = off(), gdy = off();
-    auto pd = pr.makeQuery(cs["start"], cs["goal"], thresholdFor(rs.thr), sdx, sdy, gdx, gdy);
+    std::vector<int> xstarts, xgoals;
+    auto pd = makeQueryVariant(pr, rs.query, cs["start"], cs["goal"], thresholdFor(rs.thr), jit, xstarts, xgoals);
     ob::PlannerPtr p = e->make(pr.si);
     p->setProblemDefinition(pd);
     setRange(p, rangeFor(rs.range));
@@ -238,7 +238,11 @@ static json runOne(const std::vector<Entry> &reg, const json &cs, const RunSpec 
     ev["obst"] = cs["obst"];
     ev["start"] = cs["start"];
     ev["goal"] = cs["goal"];
-    ev["thr"] = rs.thr;
+    ev["query"] = rs.query;
+    ev["xstarts"] = xstarts;
+    ev["xgoals"] = xgoals;
+    // a region goal has a real extent: the "tiny threshold" model clauses do not apply to it
+    ev["thr"] = rs.query == "region" && rs.thr == "tiny" ? "cell" : rs.thr;
     ev["thrMicro"] = fx(pr.threshold);
     ev["range"] = rs.range;
     ev["budget"] = rs.budget;
@@ -748,9 +752,14 @@ int main(int argc, char **argv)
             for (auto &r : jobs[i]["runs"])
             {
                 RunSpec rs{r["planner"], r["space"], r["thr"], r["range"], r["budget"], r["seed"], r["res"]};
+                rs.query = r.value("query", "single");
                 const Entry *e = findPlanner(reg, rs.planner);
                 if (!e || (!supports(*e, rs.space) && !getenv("VERIF_FORCE_SPACE")))
                     continue;
+                if (rs.query == "region" && (e->flags & (F_BIDIR | F_MULTILEVEL)))
+                    rs.query = "single";  // these planners need a sampleable goal
+                if (rs.query == "multistart" && (e->flags & F_SINGLESTART))
+                    rs.query = "single";  // documented: several start states are not supported
                 if (n++ < skip)
                     continue;
                 // make the run identifiable if the process dies in it
